@@ -22,9 +22,9 @@ type x01Step struct {
 
 const (
 	x01Timeout = 200 * time.Millisecond
-	x01Slack   = 60 * time.Millisecond
-	x01Mid     = 80 * time.Millisecond // well inside the timeout: the message must still be taken
-	x01Long    = x01Timeout + 150*time.Millisecond
+	x01Slack   = 150 * time.Millisecond
+	x01Mid     = 30 * time.Millisecond // well inside the timeout: the message must still be taken
+	x01Long    = x01Timeout + 400*time.Millisecond
 )
 
 func runX01(c *Ctx) error {
@@ -39,7 +39,7 @@ func runX01(c *Ctx) error {
 		{{UUID: "a"}, {UUID: "b"}, {UUID: "c"}},
 		{{UUID: "a"}, {UUID: "a"}, {UUID: "b"}, {UUID: "a"}, {UUID: "c"}},
 		{{UUID: "a"}, {UUID: "b", Pause: "long"}, {UUID: "c"}},
-		{{UUID: "a", Pause: "mid"}, {UUID: "b", Pause: "mid"}, {UUID: "c", Pause: "mid"}, {UUID: "d", Pause: "mid"}}, // the timer restarts with every message
+		{{UUID: "a", Pause: "mid"}, {UUID: "b", Pause: "mid"}, {UUID: "c", Pause: "mid"}, {UUID: "d", Pause: "mid"}, {UUID: "e", Pause: "mid"}, {UUID: "f", Pause: "mid"}, {UUID: "g", Pause: "mid"}, {UUID: "h", Pause: "mid"}, {UUID: "i", Pause: "mid"}}, // 9 x 30 ms > timeout: the timer restarts with every message
 		{{UUID: "a", Pause: "long"}, {UUID: "b"}},
 		{{UUID: "a"}, {Close: true}},
 		{{Close: true}},
@@ -47,7 +47,7 @@ func runX01(c *Ctx) error {
 		{},
 	}
 	for _, st := range fixed {
-		for _, limit := range []int{1, 2, 3, 5} {
+		for _, limit := range []int{1, 2, 3, 5, 12} {
 			for _, dd := range []bool{false, true} {
 				jobs = append(jobs, job{limit, dd, st})
 			}
